@@ -336,6 +336,19 @@ def has_wrapping_length(spec, ty, depth=0):
 EXT_IGNORED = {'sequence-extension-bit-ignored', 'oer-unknown-additions-not-skipped'}
 
 
+def has_fixed_seqof(spec, ty, depth=0):
+    t = spec.resolve(ty)
+    if depth > 40:
+        return True
+    if t.kind == 'seqof':
+        return t.lo == t.hi or has_fixed_seqof(spec, t.elem, depth + 1)
+    if t.kind == 'seq':
+        return any(has_fixed_seqof(spec, m.ty, depth + 1) for m in t.members + getattr(t, 'additions', []))
+    if t.kind == 'choice':
+        return any(has_fixed_seqof(spec, a, depth + 1) for _, a in t.alts)
+    return False
+
+
 def has_additions(spec, ty, depth=0):
     t = spec.resolve(ty)
     if depth > 40:
@@ -467,6 +480,8 @@ def judge_fuzz(ctx, p, fz, report):
             ctx.count('fuzz:enumeration-value-not-checked(open finding)')
         elif py[1] == 'decode' and 'oer-length-wraps' in ACTIVE and has_wrapping_length(spec, ty):
             ctx.count('fuzz:length-wrap(open finding)')
+        elif py[1] == 'decode' and 'oer-seqof-fixed-above-255' in ACTIVE and has_fixed_seqof(spec, ty):
+            ctx.count('fuzz:fixed-size-quantity-not-exact(open finding)')
         elif py[1] == 'decode' and 'oer-addition-length-ignored' in ACTIVE and has_additions(spec, ty):
             ctx.count('fuzz:addition-length-not-validated(open finding)')
         elif py[1] == 'decode' and not (ACTIVE & EXT_IGNORED and has_ext_seq(spec, ty)):
